@@ -30,7 +30,16 @@ import (
 // the next batch: the mempool must refuse them while the stream is open, otherwise the builder includes them twice.
 type reAddMempool struct {
 	*mempool.Mempool[*chain.Transaction]
-	on bool
+	on  bool
+	all []*chain.Transaction
+}
+
+// PrepareStream prefetches the next batch; gossip may re-deliver those very transactions before they are handed out
+func (m *reAddMempool) PrepareStream(ctx context.Context, count int) {
+	m.Mempool.PrepareStream(ctx, count)
+	if m.on {
+		m.Mempool.Add(ctx, m.all)
+	}
 }
 
 func (m *reAddMempool) Stream(ctx context.Context, count int) []*chain.Transaction {
@@ -130,6 +139,11 @@ func TestVerifChainBuild(t *testing.T) {
 				w.rules.WindowTargetUnits = fees.Dimensions{500, 5, 20, 60, 40} // stop at the first transaction that does not fit
 			}
 		}
+		if s%8 == 3 {
+			// big-pool scenario: everything must fit so that the builder really streams a second (prefetched) batch
+			w.rules.MaxBlockUnits = fees.Dimensions{1 << 29, 1 << 29, 1 << 29, 1 << 29, 1 << 29}
+			w.rules.WindowTargetUnits = fees.Dimensions{1 << 40, 1 << 40, 1 << 40, 1 << 40, 1 << 40}
+		}
 		prices := fees.Dimensions{1, 1, 1, 1, 1}
 		if r.Intn(3) == 0 {
 			prices = fees.Dimensions{uint64(r.Intn(3)), 1, uint64(r.Intn(3)), 1, uint64(r.Intn(2))}
@@ -181,18 +195,32 @@ func TestVerifChainBuild(t *testing.T) {
 			cfg.TransactionExecutionCores = []int{1, 2, 4, 16}[r.Intn(4)]
 			cfg.StateFetchConcurrency = 1 + r.Intn(4)
 			cfg.TargetBuildDuration = time.Duration(20+r.Intn(80)) * time.Millisecond
-			builder := chain.NewBuilder(trace.Noop, rf, &logging.NoLog{}, w.mm, w.bh, &reAddMempool{Mempool: mp, on: r.Intn(3) == 0}, bwin, metrics, cfg)
+			wrapped := &reAddMempool{Mempool: mp, on: r.Intn(3) == 0 || s%8 == 3}
+			if s%8 == 3 {
+				cfg.TargetBuildDuration = 2 * time.Second
+			}
+			builder := chain.NewBuilder(trace.Noop, rf, &logging.NoLog{}, w.mm, w.bh, wrapped, bwin, metrics, cfg)
 			// mempool content
 			var pool []vTx
 			var poolTxs []*chain.Transaction
 			ntx := r.Intn(9)
+			bigPool := s%8 == 3 && b == 0
+			if bigPool {
+				ntx = 420 // more than one stream batch (256): the builder prefetches a second batch while executing the first
+			}
 			for i := 0; i < ntx; i++ {
 				now = time.Now().UnixMilli()
 				v := vTx{Sponsor: w.accounts[r.Intn(len(w.accounts))], MaxFee: 1 << 29,
 					Expiry: (now/1000 + 2 + int64(r.Intn(int(w.rules.ValidityWindow/1000)-1))) * 1000}
 				na := 1 + r.Intn(2)
+				if bigPool {
+					na = 1
+				}
 				for j := 0; j < na; j++ {
 					v.Actions = append(v.Actions, randAction(r, w, 15, 10))
+				}
+				if bigPool {
+					v.Actions[0].Keys, v.Actions[0].Ops = nil, nil // tiny transactions: all of them fit into one block
 				}
 				switch r.Intn(12) {
 				case 0:
@@ -264,6 +292,7 @@ func TestVerifChainBuild(t *testing.T) {
 				rec.add(admitRec{Ev: "admit", Tx: poolRecs[i], Now: t0 - shift, Res: errClass(aerr), Fee: fee, Repeat: rep, Funds: st.Bal[pool[i].Sponsor]})
 			}
 			mp.Add(ctx, poolTxs)
+			wrapped.all = poolTxs
 			// ancestors within the window of "now"
 			anc := []string{}
 			for id, its := range included {
